@@ -202,6 +202,13 @@ class Loop:
             if t == 'tick':
                 self.w.now += ev['dt']
                 return [], [], []
+            if t == 'due':
+                # a lifetime deadline of the daemon's established IKE_SAs has come (as if that much time had passed with the liveness checks answered)
+                for x in self.w.sas('A'):
+                    if x.state == IkeSa.State.ESTABLISHED:
+                        setattr(x, ev['which'], self.w.now - 1)
+                self.w.now += 1.0
+                return [], [], []
             raise common.MachineryError('unknown scripted event ' + t)
 
     def tracer(self, frame, event, arg):
@@ -453,6 +460,19 @@ def hostile_event(kind, loop, rnd, prepared=False):
         return {'type': 'xfrm', 'name': kind, 'data': fakekernel.enc_acquire(wd.addr_of('A'), wd.addr_of('B'), wd.addr_of('A'), wd.addr_of('B'), 0, 80, 6, (777 << 3) | 1)}
     if kind == 'expire_unknown_spi':
         return {'type': 'xfrm', 'name': kind, 'data': fakekernel.enc_expire(wd.addr_of('A'), b'\x0a\x0b\x0c\x0d', 50, rnd.random() < 0.5)}
+    if kind in ('own_delete_then_expire', 'own_rekey_then_expire'):
+        # the daemon's OWN timers fire (its IKE_SA reaches the hard limit: DELETE(IKE) / the rekey time: CREATE_CHILD_SA) and, while that request is
+        # outstanding, the kernel reports an EXPIRE for a CHILD_SA of that IKE_SA.  From here on the legitimate session takes another course: only survival counts
+        loop.own_teardown = True
+        kid = next((c for x in w.sas('A') for c in x.child_sas), None)
+        spi = bytes(kid.inbound_spi) if kid is not None else b'\x0a\x0b\x0c\x0e'
+        return [{'type': 'due', 'name': kind, 'which': 'delete_ike_sa_at' if kind == 'own_delete_then_expire' else 'rekey_ike_sa_at'},
+                {'type': 'xfrm', 'name': kind, 'data': fakekernel.enc_expire(wd.addr_of('A'), spi, 50, rnd.random() < 0.5)},
+                {'type': 'xfrm', 'name': kind, 'data': fakekernel.enc_expire(wd.addr_of('A'), spi, 50, True)}]
+    if kind == 'expire_own_child':
+        # a soft EXPIRE for a CHILD_SA the daemon really holds, at whatever moment: it rekeys it (or queues the event) - the session goes on with the new one
+        kid = next((c for x in w.sas('A') for c in x.child_sas), None)
+        return {'type': 'xfrm', 'name': kind, 'data': fakekernel.enc_expire(wd.addr_of('A'), bytes(kid.inbound_spi) if kid is not None else b'\x0a\x0b\x0c\x0f', 50, False)}
     if kind == 'netlink_truncated':
         return {'type': 'xfrm', 'name': kind, 'data': fakekernel.enc_expire(wd.addr_of('A'), b'\x01\x02\x03\x04', 50, True)[:rnd.choice((0, 3, 10, 20, 60))]}
     if kind == 'netlink_unknown_type':
@@ -475,7 +495,7 @@ def hostile_event(kind, loop, rnd, prepared=False):
 KINDS = ('short', 'garbage', 'unconfigured_src', 'init_existing_spi', 'unknown_exchange', 'unknown_spi', 'binary_vendor', 'auth_malformed', 'bad_checksum',
          'loop_payload', 'delete_many', 'acquire_unconfigured', 'acquire_unknown_index', 'expire_unknown_spi', 'netlink_truncated', 'netlink_unknown_type',
          'control', 'send_gaierror', 'send_oserror', 'tick', 'wrong_spi_sealed', 'wrong_spi_clear', 'acquire_silent_peer', 'half_open_wrong_spi', 'netlink_fail_delsa', 'netlink_fail_newsa',
-         'acquire_legit_peer', 'wire_mutant', 'half_open_unknown_exchange_x2', 'unknown_exchange_sealed_x2', 'unknown_exchange_x2', 'garbage_x2', 'wrong_spi_sealed_x2', 'auth_malformed_x2')
+         'acquire_legit_peer', 'wire_mutant', 'own_delete_then_expire', 'own_rekey_then_expire', 'expire_own_child', 'half_open_unknown_exchange_x2', 'unknown_exchange_sealed_x2', 'unknown_exchange_x2', 'garbage_x2', 'wrong_spi_sealed_x2', 'auth_malformed_x2')
 
 
 class Lazy(dict):
